@@ -1,8 +1,9 @@
 SPECIFICATION Spec
 CONSTANTS
   Items = {0, 1, 2}
-  MaxOps = 2
-  MALFORMED = TRUE
+  MODES = {TRUE, FALSE}
+  MaxOpsWf = 2
+  MaxOpsMal = 1
   EMIT = FALSE
 INVARIANTS ModelOK RhoExact NoUnwrapPanic Bounded Emit
 CHECK_DEADLOCK FALSE
